@@ -377,7 +377,7 @@ func expMix(b []byte, m *Mix) []byte {
 func H_C04_Mix() { pbC04(mkMix("")) }
 func H_C05_Mix() { m := mkMix(""); pbC05(m, expMix(pbBuf(), m)) }
 func H_C09_Mix() {
-	m := &Mix{A: 5, B: string(pbBytes1("a_b")), E: nondetBool("a_e")}
+	m := &Mix{A: 5, B: "x", E: true} // first contents: anything that leaves a non-zero size behind
 	_ = m.Size()
 	m2 := mkMix("b_")
 	m.A, m.B, m.C, m.D, m.E, m.G = m2.A, m2.B, m2.C, m2.D, m2.E, m2.G
